@@ -194,4 +194,21 @@ theorem C01_switch_results_agree (P : Program) (val : Node → Option Val) (hsw 
   have b := (safe_reach_sw hsw hsol h₂).data.agree n v₂ hr₂ ((safe_reach_sw hsw hsol h₂).data.noExc hsw.noHeads n v₂ hr₂)
   rw [a] at b; exact Option.some.inj b
 
+/-! ### Pipelines with switches and one-ofs (no recurrent subgraph): safety under every schedule -/
+
+/-- a pipeline with switches and one-ofs that returns a value (not an exception object) returns the dataflow value of its
+output node — a one-of contributing the value of its first successful candidate — under every schedule -/
+theorem C01_oneof_value (P : Program) (val : Node → Option Val) (hone : OneP P) (hsol : SolutionOne P val)
+    (s : St) (h : Reach P s) (v : Val) (ho : s.outcome = some (.value v)) (hne : v.isExc = false) :
+    val P.g.output = some v :=
+  ((safe_reach hone hsol h).data.out (.value v) ho).1 hne
+
+/-- whatever the schedules, two runs that return values return the same value -/
+theorem C01_oneof_values_agree (P : Program) (val : Node → Option Val) (hone : OneP P) (hsol : SolutionOne P val)
+    (s₁ s₂ : St) (h₁ : Reach P s₁) (h₂ : Reach P s₂) (v₁ v₂ : Val) (ho₁ : s₁.outcome = some (.value v₁))
+    (ho₂ : s₂.outcome = some (.value v₂)) (hne₁ : v₁.isExc = false) (hne₂ : v₂.isExc = false) : v₁ = v₂ := by
+  have a := C01_oneof_value P val hone hsol s₁ h₁ v₁ ho₁ hne₁
+  have b := C01_oneof_value P val hone hsol s₂ h₂ v₂ ho₂ hne₂
+  rw [a] at b; exact Option.some.inj b
+
 end MLPE.Eng
